@@ -124,3 +124,53 @@ Proof.
   - intros H. apply (reloc_expr_succeeds_iff 0 8 0 [] (ex_expr_e None (Some 0)) None (Some 0) 1 eq_refl eq_refl ltac:(tauto) eq_refl) in H.
     destruct H as (pl & pb & E1 & _). discriminate.
 Qed.
+
+(* ------------------------------------------------------------------ round 7: the list level (relocate_to_base's loop) *)
+(* entries that do not go through the address table neither read nor change the slot table *)
+Definition no_table (e : rentry) : Prop := match e_kind e with RAddrEntry _ => False | _ => True end.
+
+Lemma entry_no_table base asize atoff slots e : no_table e ->
+  relocate_entry base asize atoff slots e =
+  match relocate_entry base asize atoff [] e with inl (o, _) => inl (o, slots) | inr x => inr x end.
+Proof.
+  unfold no_table, relocate_entry. destruct (e_kind e) as [a b| |toff| |opc]; try contradiction; intros _.
+  - destruct a as [pl|]; [|reflexivity]. destruct b as [pb|]; [|reflexivity]. destruct (write_offset _ _ _); reflexivity.
+  - destruct (write_offset _ _ _); reflexivity.
+  - destruct toff; [|reflexivity]. destruct (write_offset _ _ _); reflexivity.
+  - destruct (asize <=? 4); [|destruct (is_int32 _); [|reflexivity]]; destruct (write_offset _ _ _); reflexivity.
+Qed.
+
+(* relocate_to_base's loop over entries without address-table calls succeeds exactly when every single entry succeeds; the slot table
+   comes back unchanged and the i-th patch is the one the i-th entry gets on its own *)
+Theorem relocate_all_complete base asize atoff : forall es slots, Forall no_table es ->
+  ((exists os s', relocate_all base asize atoff slots es = inl (os, s')) <-> Forall (succeeds base asize atoff []) es).
+Proof.
+  induction es as [|e t IH]; intros slots Hn.
+  - split; [constructor|]. intros _. cbn [relocate_all]. eauto.
+  - inversion Hn as [|? ? He Ht]; subst. cbn [relocate_all]. rewrite (entry_no_table base asize atoff slots e He).
+    destruct (relocate_entry base asize atoff [] e) as [[o s0]|x] eqn:E.
+    + split.
+      * intros (os & s' & H). destruct (relocate_all base asize atoff slots t) as [[os1 s1]|y] eqn:Et; [|discriminate].
+        constructor; [exists o, s0; exact E|]. apply (IH slots Ht). eauto.
+      * intros H. inversion H as [|? ? _ Ht']; subst. destruct (proj2 (IH slots Ht) Ht') as (os1 & s1 & E1). rewrite E1. eauto.
+    + split; [intros (os & s' & H); discriminate|]. intros H. inversion H as [|? ? (o & s0 & E0) _]; subst. rewrite E in E0. discriminate.
+Qed.
+
+Theorem relocate_all_no_table_slots base asize atoff : forall es slots os s', Forall no_table es ->
+  relocate_all base asize atoff slots es = inl (os, s') -> s' = slots.
+Proof.
+  induction es as [|e t IH]; intros slots os s' Hn H; cbn [relocate_all] in H; [injection H as _ <-; reflexivity|].
+  inversion Hn as [|? ? He Ht]; subst. rewrite (entry_no_table base asize atoff slots e He) in H.
+  destruct (relocate_entry base asize atoff [] e) as [[o s0]|x]; [|discriminate].
+  destruct (relocate_all base asize atoff slots t) as [[os1 s1]|y] eqn:Et; [|discriminate]. injection H as _ <-. exact (IH slots os1 s1 Ht Et).
+Qed.
+
+Example relocate_all_complete_witness :
+  Forall no_table [ex_abs_e 255; ex_expr_e (Some 127) (Some 0)] /\
+  (exists os s', relocate_all 4294967040 8 0 [] [ex_abs_e 255; ex_expr_e (Some 127) (Some 0)] = inl (os, s')) /\
+  ~ (exists os s', relocate_all 4294967040 8 0 [] [ex_abs_e 255; ex_abs_e 256] = inl (os, s')).
+Proof.
+  split; [repeat constructor|]. split; [vm_compute; eauto|].
+  intros H. apply (relocate_all_complete 4294967040 8 0 [ex_abs_e 255; ex_abs_e 256] [] ltac:(repeat constructor)) in H.
+  inversion H as [|? ? _ H2]; subst. inversion H2 as [|? ? H3 _]; subst. exact (proj2 reloc_abs_succeeds_iff_witness H3).
+Qed.
